@@ -27,7 +27,11 @@ func transformMaybeExternal(data any, p tree.Path, ignoreParseError bool) (any, 
 	if data == nil {
 		return nil, nil
 	}
-	resource, err := transformMapping(data.(map[string]any), p, ignoreParseError)
+	mapping, ok := data.(map[string]any)
+	if !ok {
+		return nil, fmt.Errorf("%s: invalid type %T, expected a mapping", p, data)
+	}
+	resource, err := transformMapping(mapping, p, ignoreParseError)
 	if err != nil {
 		return nil, err
 	}
@@ -38,7 +42,7 @@ func transformMaybeExternal(data any, p tree.Path, ignoreParseError bool) (any, 
 			resource["external"] = true
 			if extname, extNamed := external["name"]; extNamed {
 				logrus.Warnf("%s: external.name is deprecated. Please set name and external: true", p)
-				if named && extname != name {
+				if named && !sameName(extname, name) {
 					return nil, fmt.Errorf("%s: name and external.name conflict; only use name", p)
 				}
 				if !named {
@@ -51,4 +55,17 @@ func transformMaybeExternal(data any, p tree.Path, ignoreParseError bool) (any, 
 	}
 
 	return resource, nil
+}
+
+// sameName compares two yaml values without panicking on uncomparable (mapping, sequence) values
+func sameName(a, b any) bool {
+	switch a.(type) {
+	case map[string]any, map[any]any, []any:
+		return false
+	}
+	switch b.(type) {
+	case map[string]any, map[any]any, []any:
+		return false
+	}
+	return a == b
 }
